@@ -2,13 +2,16 @@
 //
 //	raw HTTP/1.1 client --> net/http server --> REAL handler chain of cmd/kube-gateway/app/proxy.go
 //	(buildProxyHandlerChainFunc, reached through the overlay shim) with a stub authenticator (returns the case's
-//	identity) and a stub authorizer (scripted per derived impersonation request) --> REAL dispatcher --> REAL
+//	identity) and the REAL authorizer the shipped wiring builds (proxy AuthorizationOptions.ApplyTo -> AuthorizerConfig.New:
+//	SubjectAccessReviews sent to the target cluster through the cluster manager) --> REAL dispatcher --> REAL
 //	clusters.ClusterInfo / EndpointInfo transport (client-go wrappers for the gateway's bearer token + the real
-//	dynamic impersonating round tripper) --> httptest upstream that records the identity bearing headers.
+//	dynamic impersonating round tripper) --> httptest upstream that records the identity bearing headers
+//	and ANSWERS the SubjectAccessReviews from the case's scripted policy: the policy is the target cluster's.
 package main
 
 import (
 	"bufio"
+	"encoding/json"
 	"fmt"
 	"io"
 	"net"
@@ -19,12 +22,12 @@ import (
 	"sync"
 	"time"
 
+	authorizationv1 "k8s.io/api/authorization/v1"
 	metav1 "k8s.io/apimachinery/pkg/apis/meta/v1"
 	"k8s.io/apimachinery/pkg/util/sets"
 	utilwaitgroup "k8s.io/apimachinery/pkg/util/waitgroup"
 	"k8s.io/apiserver/pkg/authentication/authenticator"
 	"k8s.io/apiserver/pkg/authentication/user"
-	"k8s.io/apiserver/pkg/authorization/authorizer"
 	genericapirequest "k8s.io/apiserver/pkg/endpoints/request"
 	genericapiserver "k8s.io/apiserver/pkg/server"
 	genericfilters "k8s.io/apiserver/pkg/server/filters"
@@ -33,6 +36,7 @@ import (
 	gatewayapp "github.com/kubewharf/kubegateway/cmd/kube-gateway/app"
 	proxyv1alpha1 "github.com/kubewharf/kubegateway/pkg/apis/proxy/v1alpha1"
 	"github.com/kubewharf/kubegateway/pkg/clusters"
+	proxyoptions "github.com/kubewharf/kubegateway/pkg/gateway/proxy/options"
 )
 
 const (
@@ -57,9 +61,63 @@ type AuthzCall struct {
 	Name string `json:"name"`
 }
 
+// SARSeen is one SubjectAccessReview the target cluster was asked: the record and the requestor it was asked about.
+type SARSeen struct {
+	Call   AuthzCall
+	User   string
+	Groups []string
+	Verb   string
+}
+
 type upstream struct {
 	mu       sync.Mutex
 	received [][]HV // per request of the current case
+	policy   Policy
+	sars     []SARSeen
+}
+
+// serveSAR answers one SubjectAccessReview from the scripted policy, as the target cluster's authorizer.
+func (u *upstream) serveSAR(w http.ResponseWriter, r *http.Request) {
+	body, _ := io.ReadAll(r.Body)
+	sar := &authorizationv1.SubjectAccessReview{}
+	if _, _, err := scheme.Codecs.UniversalDeserializer().Decode(body, nil, sar); err != nil {
+		http.Error(w, "cannot decode SubjectAccessReview: "+err.Error(), http.StatusBadRequest)
+		return
+	}
+	seen := SARSeen{User: sar.Spec.User, Groups: sar.Spec.Groups}
+	decision := "deny"
+	if ra := sar.Spec.ResourceAttributes; ra != nil {
+		seen.Call = AuthzCall{Grp: ra.Group, Res: ra.Resource, Sub: ra.Subresource, Ns: ra.Namespace, Name: ra.Name}
+		seen.Verb = ra.Verb
+		u.mu.Lock()
+		if ra.Verb == "impersonate" {
+			decision = u.policy.decide(seen.Call)
+		}
+		u.mu.Unlock()
+	}
+	u.mu.Lock()
+	u.sars = append(u.sars, seen)
+	u.mu.Unlock()
+	switch decision {
+	case "allow":
+		sar.Status = authorizationv1.SubjectAccessReviewStatus{Allowed: true}
+	case "deny":
+		sar.Status = authorizationv1.SubjectAccessReviewStatus{Denied: true, Reason: "scripted deny"}
+	case "noopinion":
+		sar.Status = authorizationv1.SubjectAccessReviewStatus{}
+	case "error": // a contradictory answer: the gateway's authorizer reports an error (no retry)
+		sar.Status = authorizationv1.SubjectAccessReviewStatus{Allowed: true, Denied: true}
+	default: // "error403": the cluster refuses the review itself (an error the client does not retry)
+		w.Header().Set("Content-Type", "application/json")
+		w.WriteHeader(http.StatusForbidden)
+		json.NewEncoder(w).Encode(metav1.Status{TypeMeta: metav1.TypeMeta{Kind: "Status", APIVersion: "v1"}, Status: "Failure",
+			Reason: metav1.StatusReasonForbidden, Code: http.StatusForbidden, Message: "subjectaccessreviews is forbidden (scripted)"})
+		return
+	}
+	sar.TypeMeta = metav1.TypeMeta{Kind: "SubjectAccessReview", APIVersion: "authorization.k8s.io/v1"}
+	w.Header().Set("Content-Type", "application/json")
+	w.WriteHeader(http.StatusCreated)
+	json.NewEncoder(w).Encode(sar)
 }
 
 func isIdentityHeader(name string) bool {
@@ -68,6 +126,10 @@ func isIdentityHeader(name string) bool {
 }
 
 func (u *upstream) ServeHTTP(w http.ResponseWriter, r *http.Request) {
+	if r.Method == http.MethodPost && strings.HasSuffix(r.URL.Path, "/subjectaccessreviews") {
+		u.serveSAR(w, r)
+		return
+	}
 	if r.Header.Get(caseHeader) == "" {
 		// not case traffic (health probes of the gateway)
 		w.WriteHeader(http.StatusOK)
@@ -97,7 +159,14 @@ func (u *upstream) ServeHTTP(w http.ResponseWriter, r *http.Request) {
 	w.WriteHeader(http.StatusOK)
 }
 
-func (u *upstream) reset() { u.mu.Lock(); u.received = nil; u.mu.Unlock() }
+func (u *upstream) reset(p Policy) { u.mu.Lock(); u.received, u.sars, u.policy = nil, nil, p; u.mu.Unlock() }
+func (u *upstream) takeSARs() []SARSeen {
+	u.mu.Lock()
+	defer u.mu.Unlock()
+	r := u.sars
+	u.sars = nil
+	return r
+}
 func (u *upstream) take() [][]HV {
 	u.mu.Lock()
 	defer u.mu.Unlock()
@@ -132,11 +201,8 @@ func (p Policy) decide(c AuthzCall) string {
 
 // script is what the stubs answer for the case being run (one case at a time).
 type script struct {
-	mu    sync.Mutex
-	user  *user.DefaultInfo
-	policy Policy
-	calls []AuthzCall
-	seen  []string // user name seen by the authorizer (requestor), for the tap
+	mu   sync.Mutex
+	user *user.DefaultInfo
 }
 
 type gateway struct {
@@ -208,27 +274,19 @@ func newGateway() (*gateway, error) {
 		}
 		return &authenticator.Response{User: g.sc.user}, true, nil
 	})
-	cfg.Authorization.Authorizer = authorizer.AuthorizerFunc(func(a authorizer.Attributes) (authorizer.Decision, string, error) {
-		call := AuthzCall{Grp: a.GetAPIGroup(), Res: a.GetResource(), Sub: a.GetSubresource(), Ns: a.GetNamespace(), Name: a.GetName()}
-		g.sc.mu.Lock()
-		defer g.sc.mu.Unlock()
-		g.sc.calls = append(g.sc.calls, call)
-		if a.GetUser() != nil {
-			g.sc.seen = append(g.sc.seen, a.GetUser().GetName())
-		}
-		if a.GetVerb() != "impersonate" || !a.IsResourceRequest() {
-			return authorizer.DecisionDeny, "not an impersonation check", nil
-		}
-		switch g.sc.policy.decide(call) {
-		case "deny":
-			return authorizer.DecisionDeny, "scripted deny", nil
-		case "noopinion":
-			return authorizer.DecisionNoOpinion, "", nil
-		case "error":
-			return authorizer.DecisionAllow, "", fmt.Errorf("scripted authorizer error")
-		}
-		return authorizer.DecisionAllow, "", nil
-	})
+	// the authorizer of the proxy server exactly as the shipped options -> config path builds it
+	// (cmd/kube-gateway/app CreateProxyConfig: o.Authorization.ApplyTo(&recommendedConfig.Config, clusterController)); only the
+	// decision cache is switched off (negative TTLs: every entry is expired when it is written), because cases with different
+	// policies follow each other within the TTLs — the cache is property C12's subject
+	authzOptions := proxyoptions.NewAuthorizationOptions()
+	authzOptions.CacheAuthorizedTTL = -time.Second
+	authzOptions.CacheUnauthorizedTTL = -time.Second
+	if err := authzOptions.ApplyTo(cfg, manager); err != nil {
+		return nil, fmt.Errorf("AuthorizationOptions.ApplyTo: %v", err)
+	}
+	if cfg.Authorization.Authorizer == nil {
+		return nil, fmt.Errorf("the shipped wiring built no authorizer")
+	}
 	notFound := http.HandlerFunc(func(w http.ResponseWriter, r *http.Request) { w.WriteHeader(http.StatusTeapot) })
 	handler := gatewayapp.VerifBuildProxyHandlerChain(manager, notFound, cfg)
 	g.gwSrv = httptest.NewServer(handler)
@@ -262,16 +320,17 @@ func (g *gateway) dial() error {
 type Observed struct {
 	Status   int         `json:"status"`
 	Upstream [][]HV      `json:"upstream"` // identity headers of every request the upstream received for this case
-	Calls    []AuthzCall `json:"calls"`
+	Calls    []AuthzCall `json:"calls"`    // the records the TARGET CLUSTER was asked about (SubjectAccessReviews), in order
+	SARs     []SARSeen   `json:"sars"`
 	Err      string      `json:"err,omitempty"`
 }
 
 // send writes one raw request (header lines exactly as given) and returns what happened.
 func (g *gateway) send(u *user.DefaultInfo, policy Policy, lines []string, upgrade bool) Observed {
 	g.sc.mu.Lock()
-	g.sc.user, g.sc.policy, g.sc.calls, g.sc.seen = u, policy, nil, nil
+	g.sc.user = u
 	g.sc.mu.Unlock()
-	g.up.reset()
+	g.up.reset(policy)
 	g.caseSeq++
 	var b strings.Builder
 	b.WriteString("GET " + casePath + " HTTP/1.1\r\nHost: " + clusterName + "\r\n")
@@ -322,8 +381,10 @@ func (g *gateway) send(u *user.DefaultInfo, policy Policy, lines []string, upgra
 		break
 	}
 	obs.Upstream = g.up.take()
-	g.sc.mu.Lock()
-	obs.Calls = append([]AuthzCall{}, g.sc.calls...)
-	g.sc.mu.Unlock()
+	obs.SARs = g.up.takeSARs()
+	obs.Calls = []AuthzCall{}
+	for _, s := range obs.SARs {
+		obs.Calls = append(obs.Calls, s.Call)
+	}
 	return obs
 }
